@@ -3,7 +3,7 @@
 #   tools/verify_seed.sh C06      (expects worktree /tmp/wt_c06 and /tmp/seeded_out/C06/{patch.diff,demo.sh|demo_test.rs,meta.json})
 # Checks: patch.diff applies to the pristine tree, existing suite passes with the change,
 # demonstration passes WITHOUT the change and fails WITH it.  (No `git stash`: the stash stack is shared by all worktrees.)
-ID=$1; n=${ID:1}; WT=/tmp/wt_c$n; OUT=/tmp/seeded_out/$ID
+ID=$1; n=${ID:1}; WT=${WTP:-/tmp/wt_c}$n; OUT=${OUTP:-/tmp/seeded_out}/$ID
 export RUST_BACKTRACE=0 CARGO_NET_OFFLINE=true
 cd $WT || exit 2
 git checkout -q -- . || exit 2
